@@ -135,7 +135,9 @@ class Background:
     def __init__(self, ctx):
         self.ctx, self.jobs = ctx, []
 
-    def start(self, fn, *a, **kw):
+    def start(self, fn, *a, cap=None, **kw):
+        while cap and sum(1 for t, _ in self.jobs if t.is_alive()) >= cap:
+            time.sleep(0.05)        # at most cap jobs at a time (the main line waits)
         seq, box = self.ctx.tlc_seq, {}
 
         def body():
@@ -213,32 +215,28 @@ def pipeline1(ctx, bg, cases_by):
     ]
     if q:
         plans = [pl for pl in plans if pl[0] != "enum4"]
-    # quick tier: the generation runs are started together, next to the main line; every observation file is judged
-    # next to the main line as soon as it is complete.  Thorough tier (large files): one run at a time.
+    # the generation runs are started together, next to the main line (which executes what is ready); every observation
+    # file is judged next to the main line as soon as it is complete, in pieces of whole behaviours
     got = {}
 
     def produce(tag, a, kw):
         got[tag] = gen(ctx, tag, *a, **kw)
-    if q:
-        for tag, a, kw in plans:
-            bg.start(produce, tag, a, kw)
+    for tag, a, kw in plans:
+        bg.start(produce, tag, a, kw)
 
     def cases_of(tag):
-        if q:
-            while tag not in got:
-                if not any(t.is_alive() for t, _ in bg.jobs):
-                    bg.join()
-                    raise RuntimeError("generation of %s ended without cases" % tag)
-                time.sleep(0.05)
-        else:
-            produce(*[pl for pl in plans if pl[0] == tag][0])
+        while tag not in got:
+            if not any(t.is_alive() for t, _ in bg.jobs):
+                bg.join()
+                raise RuntimeError("generation of %s ended without cases" % tag)
+            time.sleep(0.05)
         return got[tag]
 
     def judged(obs, tag, k=1):
         if not q:
-            return judge(ctx, obs, tag)
+            k = max(1, sum(1 for _ in open(obs)) // 150000)
         for part in (split_obs(obs, k) if k > 1 else [obs]):
-            bg.start(judge, ctx, part, tag)
+            bg.start(judge, ctx, part, tag, cap=8 if q else 7)
 
     if q:
         bounds["enum3"] = "3 styles: 5^3 basedOn graphs x 2^3 masks of x, y exactly where x is not x 4 queried ids"
@@ -265,7 +263,7 @@ def pipeline1(ctx, bg, cases_by):
     sim = cases_of("sim")
     bounds["sim"] = ("%d random operation sequences of length %d over %d styles, all %d operations (those on the copy included), "
                      "alias kinds %s" % (len(sim), d, 3 if q else 4, len(ALLOPS), "/".join(kinds)))
-    judge(ctx, ctx.run_exec("styleinh", sim, "sim", shards=12), "sim")
+    judged(ctx.run_exec("styleinh", sim, "sim", shards=12), "sim")
     bg.join()
     ctx.extra_cov["bounds"] = bounds
     ctx.extra_cov["variants_per_behaviour"] = 20
